@@ -80,7 +80,7 @@ theorem validateRoot_setArgs (d : Key → Val) (opts : OptMap) (hm : opts.lookup
         cases hl : opts.lookup kUA with
         | none => simp [hl] at hua
         | some u => simpa [hl] using hua
-      have hu' : truthy (over d (upsert opts kFC "True") kUA) = true := by
+      have hu' : truthy (over d (upsert opts kFC (k! "True")) kUA) = true := by
         unfold over
         rw [lookup_upsert_ne _ _ kUA_ne_kFC]
         exact hu
